@@ -552,9 +552,10 @@ impl<'a> Ctx<'a> {
             _ => self.direct_failures.push(json!({"what": "graphql-loader print_js and print_js_for_operation_document differ in panicking", "classes": [], "document": text})),
         }
         // 2. TS printer in standalone mode (needs a schema and a document the type printer can handle).
-        // The type printer recurses without a visited set: on a document with a fragment cycle (which `check`
-        // accepts when the cycle is not reachable from an operation) it overflows the stack and the process
-        // dies, so it is not run on those (counted; C03/C08 territory).
+        // The type printer recurses without a visited set: on a document with a fragment cycle it overflows the
+        // stack and the process dies.  Since /repo c67e45e `check` rejects every fragment cycle (also one no
+        // operation reaches), so this guard should never fire; it stays so that a regression of the checker is
+        // counted here instead of killing the harness.
         let cyclic = spread_graph_cyclic(doc);
         if accepted && cyclic { self.bump("accepted_by_check_but_cyclic_fragments(ts_mode_not_run:stack_overflow)"); }
         let ts: Option<Outcome> = match schema {
@@ -590,9 +591,11 @@ impl<'a> Ctx<'a> {
         self.bump(&format!("max_closure:{}", max_closure.min(6)));
         match &js { Ok(_) => self.bump("js:ok"), Err(m) => self.bump(&format!("js:panic:{m}")) }
         if self.distinct.insert(text.to_string()) && (n_spreads > 0 || text.contains('(')) { self.nontrivial.insert(text.to_string()); }
-        // known-finding classes this case belongs to
-        let mut classes: Vec<&str> = vec![];
-        if accepted && js.is_err() { classes.push("accepted-document-unspread-fragment-undefined-spread-panic"); }
+        // no known-finding class is left for C12 (the one there was, an accepted document whose unspread
+        // fragment spreads an undefined fragment, was fixed in /repo c67e45e): an accepted document for which
+        // the printer panics is a plain violation
+        let classes: Vec<&str> = vec![];
+        if accepted && js.is_err() { self.bump("ACCEPTED_DOCUMENT_PRINTER_PANIC"); }
         let emitted: usize = js.as_ref().map(|v| v.iter().map(|s| s.len()).sum()).unwrap_or(0);
         if whole.len() > 24_000 || emitted > 300_000 { self.bump("skipped_too_large_for_coqc"); return; }
         let mut table = Table::default();
@@ -711,6 +714,26 @@ fn main() {
             if cfg.duplicate { "-duplicate" } else { "" }, if cfg.typed { "-typed" } else { "-anyvalues" });
         let t = gen_syn_doc(&mut rng, &cfg);
         cx.push_text(&stream, t, true);
+    }
+
+    // 3b. documents that `check` accepts, plus one fragment that no operation spreads and that (a) spreads an
+    //     undefined fragment, (b) spreads itself: since /repo c67e45e both must be rejected by `check`
+    //     (before it they were accepted and the printers panicked / overflowed the stack).  If one is accepted
+    //     again the case goes through like any other and `holds` fails on it.
+    let n_unspread = if thorough { 600 } else { 60 };
+    for i in 0..n_unspread {
+        let cfg = SynCfg { n_frags: rng.range(0, 3), cyclic: false, undefined: false, duplicate: false, typed: true, spread_bias: 3 };
+        let base = gen_syn_doc(&mut rng, &cfg);
+        let base_ok = {
+            let text = leak(base.clone());
+            match catch(|| load_operation(text)) { Ok(Ok(doc)) => catch(AssertUnwindSafe(|| check_operation(&syn_schema, &doc).is_empty())).unwrap_or(false), _ => false }
+        };
+        if !base_ok { cx.bump("unspread:base_not_accepted"); continue; }
+        let (stream, extra) = if i % 2 == 0 { ("unspread-undefined", "fragment U9 on Query { x a { ...Missing } }\n") } else { ("unspread-cycle", "fragment C9 on Query { a { ...C8 } }\nfragment C8 on Query { x ...C9 }\n") };
+        let before = cx.stats.get("accepted_by_check").copied().unwrap_or(0);
+        cx.push_text(stream, format!("{base}{extra}"), true);
+        let after = cx.stats.get("accepted_by_check").copied().unwrap_or(0);
+        cx.bump(&format!("{stream}:{}", if after > before { "ACCEPTED_BY_CHECK" } else { "rejected_by_check" }));
     }
 
     // 4. AST shapes the parser never produces (empty selection sets, Some(empty arguments), Some(empty variables))
